@@ -187,6 +187,13 @@ CRASH_CASES = [
 ]
 
 
+# a history the C stops by assert although the sequence specification would accept it (a defect that is not a memory error)
+ABORT_CASES = [
+    ('c20:dyn:struct-size-ge-256', ['new 6', 'pushs ' + 'ab' * 256]),
+    ('c20:dyn:struct-size-ge-256', ['new 1', 'pushs ' + 'cd' * 300]),
+]
+
+
 def probe_extra():
     inc = os.path.join(vlib.BUILD, 'gen', 'nl_array_slice.inc')
     h = hashlib.sha256(open(inc, 'rb').read()).hexdigest()[:16]
@@ -294,6 +301,19 @@ def dyn_crash_cases(ck, probe, ref):
                 ck.fail('c20:dyn:crashcase-repaired:' + (key or ' '.join(h)[:40]),
                         'the code handles %r but differs from the model: impl=%s model=%s %s' % (h, impl[-1:], model[-1:], '; '.join(sl[:1])),
                         dict(part='dyn', history=h, expected_model=model[-1], observed_impl=impl[-1:], stderr=err[-1500:], correspondence='dyn_probe vs nvref_c20'))
+    for key, h in ABORT_CASES:
+        rc, impl, err = run_probe(probe, h, timeout=60)
+        model = vlib.run_lines(ref, h)
+        ck.count(('abortcase', tuple(h)), True)
+        if rc != 0 or san_lines(err) or impl != model:
+            ck.fail('c20:dyn:abortcase:' + key, 'dyn_array differs from the model on %r: impl=%s model=%s' % ([x[:30] for x in h], impl[-1:], [m[:80] for m in model[-1:]]),
+                    dict(part='dyn', history=h, expected_model=model[-1][:300], observed_impl=[x[:300] for x in impl[-1:]], correspondence='dyn_probe vs nvref_c20'))
+        elif impl[-1] == 'abort':
+            ck.fail(key, 'native DynArray refuses a struct of %d bytes (assert, exit 134)' % ((len(h[-1]) - 6) // 2),
+                    dict(part='dyn', history=h, observed_impl='abort', engine='dyn_probe(asan)'))
+            seen.setdefault(key, []).append('abort')
+        else:
+            seen.setdefault(key + ':repaired', []).append(impl[-1][:60])
     return seen
 
 
@@ -312,6 +332,8 @@ def gen_gc_history(rng, maxlen, stale, stats):
     while len(lines) < L:
         r = rng.random()
         live = [i + 1 for i, c in enumerate(cnt) if c > 0]
+        if len(live) > 48 and r < 0.8:
+            r = 0.5                # keep the live set small (the probe and the model print the whole list after every op)
         if r < 0.28 or not cnt:
             lines.append('alloc %d %d' % (rng.choice([0, 1, 8, 8, 24, 24, 100, 4096]), rng.choice(GC_TYPES))); cnt.append(1); stats['alloc'] += 1
         elif r < 0.45 and live:
@@ -361,7 +383,7 @@ def gc_correspondence(ck, ref):
     nh, maxlen = (400, 5000) if ck.thorough else (120, 200)
     hist = [list(w) for w in GC_WITNESSES]
     for i in range(nh):
-        hist.append(gen_gc_history(rng, maxlen if i % 10 == 0 else min(maxlen, 200), stale=(i % 2 == 1), stats=stats))
+        hist.append(gen_gc_history(rng, maxlen if i % 40 in (0, 1) else min(maxlen, 200), stale=(i % 2 == 1), stats=stats))
     lines = [l for h in hist for l in h]
     engines = [('gc_probe(asan)', ck.probe('gc_probe.c', 'asan'), ASAN_ENV),
                ('gc_probe(asan,no-quarantine)', ck.probe('gc_probe.c', 'asan'),
